@@ -247,12 +247,9 @@ func (r *Router) Group(prefix string, register func(), middles ...HandlerFunc) {
 	// handle prev middleware
 	prevHandlers := r.currentGroupHandlers
 	if len(middles) > 0 {
-		// in multi level group routes.
-		if len(prevHandlers) > 0 {
-			r.currentGroupHandlers = append(r.currentGroupHandlers, middles...)
-		} else {
-			r.currentGroupHandlers = middles
-		}
+		// Notice: always use a new slice. Keeping the caller's slice (or appending to the parent group's)
+		// lets a later Use() or sub-group write into the free capacity of an array it does not own.
+		r.currentGroupHandlers = combineHandlers(prevHandlers, middles)
 	}
 
 	// call register
